@@ -105,6 +105,8 @@ def rule_r22_partition(ctx, prog, rule="R22", body=None):
     from .facts import inline_calls
     from .rules_zones import helper_filter
     b = inline_calls(prog, b, helper_filter(prog))
+    from .facts import eliminate_static_refs
+    b = eliminate_static_refs(prog, b)
     pv_local, pidx = pivot_local_of(b)
     if pv_local is None:
         ctx.ob(rule, "partition_mut/pivot-value", False, b.where(), "anchor missing: `self[pivot_index].clone()` not found", what="anchor missing")
@@ -185,6 +187,8 @@ def rule_r21_compaction(ctx, prog, rule="R21", body=None):
     from .facts import inline_calls
     from .rules_zones import helper_filter
     b = inline_calls(prog, b, helper_filter(prog))
+    from .facts import eliminate_static_refs
+    b = eliminate_static_refs(prog, b)
     za = ZoneAnalysis(b, lambda st, z: None)
     za.run()
     sa = SegmentAnalysis(b, za, nan_pred)
@@ -264,6 +268,8 @@ def rule_r24_selection(ctx, prog, rule="R24"):
     from .facts import inline_calls
     from .rules_zones import helper_filter
     b = inline_calls(prog, b, helper_filter(prog))
+    from .facts import eliminate_static_refs
+    b = eliminate_static_refs(prog, b)
     sp = SelectionProof(prog, b, part.key, {b.key})
     try:
         res = sp.prove(ipar[0])
@@ -357,6 +363,8 @@ def rule_r25_bulk_selection(ctx, prog, rule="R25"):
     from .facts import inline_calls
     from .rules_zones import helper_filter
     b = inline_calls(prog, b, helper_filter(prog))
+    from .facts import eliminate_static_refs
+    b = eliminate_static_refs(prog, b)
     bp = BulkProof(prog, b, part.key)
     if None in (bp.p_arr, bp.p_idx, bp.p_val):
         ctx.ob(rule, "bulk/parameters", False, b.where(), "anchor missing: (array view, index slice, value slice) parameters", what="anchor missing")
